@@ -784,7 +784,7 @@ type Hist7 struct {
 
 func genHist7(r *rng) *Hist7 {
 	g := &gen7{r}
-	h := &Hist7{Spec: EngineSpec{backends[r.intn(4)], true}}
+	h := &Hist7{Spec: EngineSpec{pickBackend(r), true}}
 	h.A = g.env()
 	h.Src = genProg7(r, h.A)
 	n := 2 + r.intn(10)
@@ -896,7 +896,7 @@ func runHist7(h *Hist7, x *evalCtx) hist7Result {
 			}
 			outs[i].accept, outs[i].why = conforms(h.A, st.Env)
 			outs[i].o = x.observe(false, func(o *obs) {
-				v, err := c(hostB)
+				v, _, err := callWith(h.Spec, c, hostB)
 				valObs(o, v, err)
 			})
 			simrt.Mix(outs[i].o.Class)
@@ -916,7 +916,7 @@ func runHist7(h *Hist7, x *evalCtx) hist7Result {
 				if pc != nil {
 					outs[i].refOK = true
 					outs[i].ref = x.observe(false, func(o *obs) {
-						v, err := pc(hostB2)
+						v, _, err := callWith(h.Spec, pc, hostB2)
 						valObs(o, v, err)
 					})
 				}
